@@ -24,6 +24,9 @@ def run(chk):
     def replayer(ob):
         if (ob.witness or {}).get("engine") == "TAB":
             return tab.replay_point(ob.witness)
+        if (ob.witness or {}).get("engine") == "EFFECT":
+            from vcgen import effects
+            return effects.replay_effect(ob.witness)
         from vcgen import cex
         return cex.replay(ob.witness)
     return replayer
